@@ -95,6 +95,14 @@ def gen_plan(rng, cfg, tier):
     pat = line.split()[-1] if '=' in line else None
     if pat in MATCHING and rng.random() < 0.8:
       names += rng.sample(MATCHING[pat], rng.randint(1, len(MATCHING[pat])))
+  if rng.random() < 0.5:
+    # raw series that are *named like* an aggregate some rule builds from other series
+    from . import routeprops
+    rules = routeprops.parse_agg_rules(cfg['files']['aggregation-rules.conf'])
+    aggs = sorted(set(a for a in (routeprops.ref_agg_match(ru, nm) for ru in rules for nm in names)
+                      if a is not None))
+    if aggs:
+      names += rng.sample(aggs, rng.randint(1, min(2, len(aggs))))
   ops = []
   n = rng.randint(3, 40 if tier == 'quick' else 100)
   counter = [0]
@@ -132,6 +140,16 @@ def gen_plan(rng, cfg, tier):
     pos = rng.randint(1, len(ops))
     ops[pos:pos] = [['file', 'aggregation-rules.conf', '\n'.join(lines) + '\n'],
                     ['advance', rng.choice([10.0, 11.0, 20.5])]]
+  elif rng.random() < 0.2:
+    # the file is edited and the re-read that should pick it up fails with an I/O error
+    # (at open, or after the first line), with inputs still buffered
+    lines = [l for l in cfg['files']['aggregation-rules.conf'].splitlines() if '=' in l]
+    rng.shuffle(lines)
+    pos = rng.randint(1, len(ops))
+    ops[pos:pos] = [['rules_fault', rng.choice(['open', 'iter'])],
+                    ['file', 'aggregation-rules.conf', '\n'.join(lines) + '\n'],
+                    ['dp', rng.choice(names), 0.0, 'int', 424242.0],
+                    ['advance', rng.choice([10.0, 11.0, 3.0])]]
   return {'ops': ops, 'p_tie': rng.choice([0.0, 0.5, 0.9])}
 
 
